@@ -11,5 +11,5 @@ CONSTANTS
   FileRule = "sequential"
 VIEW View
 INVARIANTS LidIsIndex IdsUnique IdsFresh CouplingValid Gone RemovedAtEnd NoGaps KBound TimeLaw StatsRows
-PROPERTIES DivisionReplaces
+PROPERTIES DivisionReplaces RefinesIdAlloc
 CHECK_DEADLOCK FALSE
